@@ -84,6 +84,8 @@ class Translator:
     def __init__(self, flags=0):
         self.flags = flags
         self.clipped = False
+        self.allow_inner_end = False
+        self.overapprox = False
         self.S = z3.StringSort()
         self.R = z3.ReSort(self.S)
 
@@ -174,6 +176,11 @@ class Translator:
                 return z3.Option(r)
             return z3.Loop(r, lo, hi)
         if op is sc.AT:
+            if av in (sc.AT_END, sc.AT_END_STRING) and self.allow_inner_end:
+                # `$` inside a group: over-approximated by the empty string (the translated language is a SUPERSET);
+                # sound for emptiness (unsat) results, a sat result must be confirmed by replay
+                self.overapprox = True
+                return z3.Re(z3.StringVal(""))
             raise Unsupported("anchor inside pattern: %s" % av)
         raise Unsupported(str(op))
 
@@ -193,7 +200,7 @@ def parse(pattern, flags=0):
     return list(p), (flags | p.state.flags)
 
 
-def to_re(pattern, flags=0):
+def to_re(pattern, flags=0, allow_inner_end=False):
     """z3 Re for the language of FULL matches of `pattern` (leading ^ / trailing $ stripped and reported).
     returns (re, info) with info = {anchored_start, anchored_end, clipped}"""
     parsed, flags = parse(pattern, flags)
@@ -209,8 +216,9 @@ def to_re(pattern, flags=0):
         a_end = "dollar"
         parsed = parsed[:-1]
     tr = Translator(flags)
+    tr.allow_inner_end = allow_inner_end
     r = tr.seq(parsed)
-    return r, {"anchored_start": a_start, "anchored_end": a_end, "clipped": tr.clipped, "flags": flags}
+    return r, {"anchored_start": a_start, "anchored_end": a_end, "clipped": tr.clipped, "flags": flags, "overapprox": tr.overapprox}
 
 
 def contains(r):
@@ -257,3 +265,128 @@ def validate(pattern, samples, mode="fullmatch"):
         if want != got:
             bad.append(s)
     return bad
+
+
+# ---------------------------------------------------------------- alphabet compression (minterms)
+def _atomic_sets(parsed, flags, acc):
+    """collect every character set a pattern can distinguish, as lists of (lo, hi) ranges"""
+    for op, av in parsed:
+        if op is sc.LITERAL or op is sc.NOT_LITERAL:
+            cps = [av]
+            if flags & re.IGNORECASE and av < 128 and chr(av).isalpha():
+                cps.append(ord(chr(av).swapcase()))
+            for cp in cps:
+                acc.append([(cp, cp)])
+        elif op is sc.ANY:
+            acc.append([(10, 10)])
+        elif op is sc.IN:
+            neg, rs = class_ranges(av)
+            acc.append(list(rs))
+            if flags & re.IGNORECASE:
+                for lo, hi in rs:
+                    for cp in range(lo, min(hi, 127) + 1):
+                        if chr(cp).isalpha():
+                            acc.append([(ord(chr(cp).swapcase()),) * 2])
+        elif op is sc.BRANCH:
+            for x in av[1]:
+                _atomic_sets(x, flags, acc)
+        elif op is sc.SUBPATTERN:
+            _atomic_sets(av[3], flags, acc)
+        elif op in (sc.MAX_REPEAT, sc.MIN_REPEAT):
+            _atomic_sets(av[2], flags, acc)
+
+
+def minterm_representatives(patterns, extra_sets=()):
+    """patterns: list of (pattern, flags).  Returns a function rep(cp) -> representative code point of cp's minterm
+    (characters no pattern and no extra set can tell apart), and the sorted list of representatives."""
+    acc = [list(s) for s in extra_sets]
+    for pat, flags in patterns:
+        parsed, fl = parse(pat, flags)
+        _atomic_sets(parsed, fl, acc)
+    bounds = set([0, 0x110000])
+    for rs in acc:
+        for lo, hi in rs:
+            bounds.add(lo)
+            bounds.add(hi + 1)
+    bounds = sorted(b for b in bounds if 0 <= b <= 0x110000)
+    import bisect as _b
+    sets_sorted = []
+    for rs in acc:
+        rs = sorted(rs)
+        sets_sorted.append(([r[0] for r in rs], rs))
+    def member(i, cp):
+        los, rs = sets_sorted[i]
+        j = _b.bisect_right(los, cp) - 1
+        while j >= 0:
+            if rs[j][0] <= cp <= rs[j][1]:
+                return True
+            j -= 1
+            if j >= 0 and rs[j][1] < cp and all(r[1] < cp for r in rs[:j + 1][-3:]):
+                break
+        return any(lo <= cp <= hi for lo, hi in rs) if j >= 0 else False
+    sig2rep = {}
+    interval_rep = []
+    for k in range(len(bounds) - 1):
+        cp = bounds[k]
+        sig = tuple(any(lo <= cp <= hi for lo, hi in sets_sorted[i][1]) for i in range(len(acc)))
+        if sig not in sig2rep:
+            sig2rep[sig] = cp
+        interval_rep.append(sig2rep[sig])
+    starts = bounds[:-1]
+    def rep(cp):
+        return interval_rep[_b.bisect_right(starts, cp) - 1]
+    return rep, sorted(set(interval_rep))
+
+
+class CompressedTranslator(Translator):
+    """translate over the compressed alphabet: every class becomes the union of the representatives it contains"""
+    def __init__(self, flags, reps):
+        Translator.__init__(self, flags)
+        self.reps = [r for r in reps if r <= Z3_MAXCHAR]
+        if len(self.reps) != len(reps):
+            self.clipped = True
+
+    def _union(self, cps):
+        cps = sorted(set(cps))
+        if not cps:
+            return z3.Empty(self.R)
+        parts = [z3.Re(_sv(chr(c))) for c in cps]
+        return z3.Union(*parts) if len(parts) > 1 else parts[0]
+
+    def anychar(self):
+        return self._union(self.reps)
+
+    def cls(self, items):
+        neg, rs = class_ranges(items)
+        inside = [c for c in self.reps if any(lo <= c <= hi for lo, hi in rs)]
+        if neg:
+            inside = [c for c in self.reps if c not in set(inside)]
+        return self._union(inside)
+
+    def lit(self, cp):
+        cps = [cp]
+        if self.flags & re.IGNORECASE and cp < 128 and chr(cp).isalpha():
+            cps.append(ord(chr(cp).swapcase()))
+        return self._union([c for c in cps if c in set(self.reps)])
+
+    def node(self, op, av):
+        if op is sc.NOT_LITERAL:
+            return self._union([c for c in self.reps if c != av])
+        if op is sc.ANY:
+            return self._union([c for c in self.reps if (self.flags & re.DOTALL) or c != 10])
+        return Translator.node(self, op, av)
+
+
+def to_re_compressed(pattern, flags, reps, allow_inner_end=False):
+    parsed, flags = parse(pattern, flags)
+    a_start = a_end = False
+    if parsed and parsed[0][0] is sc.AT and parsed[0][1] in (sc.AT_BEGINNING, sc.AT_BEGINNING_STRING):
+        a_start = True
+        parsed = parsed[1:]
+    if parsed and parsed[-1][0] is sc.AT and parsed[-1][1] in (sc.AT_END_STRING, sc.AT_END):
+        a_end = True
+        parsed = parsed[:-1]
+    tr = CompressedTranslator(flags, reps)
+    tr.allow_inner_end = allow_inner_end
+    r = tr.seq(parsed)
+    return r, tr, {"anchored_start": a_start, "anchored_end": a_end, "clipped": tr.clipped, "overapprox": tr.overapprox}
